@@ -27,7 +27,8 @@ class HarnessError(BaseException):
 
 _ACTIVE = None  # the Scheduler of the execution in progress (one at a time per process)
 _REAL_RLOCK = threading.RLock
-_RLOCK_TYPE = type(threading.RLock())
+_REAL_LOCK = threading.Lock
+_RLOCK_TYPE = (type(threading.RLock()), type(threading.Lock()))
 
 
 class CoopRLock:
@@ -82,8 +83,8 @@ class CoopRLock:
 
 
 def own_locks(prefixes=("signac", "synced_collections")):
-    """Replace, in every loaded module of the code under test, the name ``RLock`` (when it is threading's factory) and
-    every class-level lock object / table of lock objects by CoopRLock.  Found by type, not by name.  Meant to be called
+    """Replace, in every loaded module of the code under test, the names bound to threading's ``RLock`` / ``Lock``
+    factories and every module- or class-level lock object / table of lock objects by CoopRLock.  Found by type, not by name.  Meant to be called
     in a process that is thrown away afterwards (see isolated())."""
     n = 0
     for name, mod in list(sys.modules.items()):
@@ -92,6 +93,11 @@ def own_locks(prefixes=("signac", "synced_collections")):
         for k, v in list(vars(mod).items()):
             if v is _REAL_RLOCK:
                 setattr(mod, k, CoopRLock)
+                n += 1
+            elif v is _REAL_LOCK:
+                # a plain lock: same visibility to the scheduler; a thread re-acquiring its own plain lock blocks for real
+                # (as it would without the harness) and ends as a timed-out evaluation
+                setattr(mod, k, lambda: CoopRLock(_REAL_LOCK()))
                 n += 1
             elif isinstance(v, _RLOCK_TYPE):
                 setattr(mod, k, CoopRLock(v))
